@@ -280,3 +280,47 @@ def iteration_values_carried(fn):
         for name, node in sorted(found.items()):
             out.append((name, loop, node))
     return out
+
+
+def exception_ctor_arity(prog, package_prefix='fim.'):
+    """[(module, function qualname, call, class name, [missing parameter names])] for every construction of a library exception
+    class (a class of the package whose name ends in Exception / Error) that does not supply a required parameter of its
+    ``__init__`` (positional without default, or keyword-only without default). Calls with * / ** arguments are skipped.
+    Such a call raises TypeError instead of the intended exception - on the one code path that reaches it."""
+    out = []
+    ninst = 0
+    for m, c, f in prog.all_functions():
+        if not m.name.startswith(package_prefix):
+            continue
+        for call in walk_no_nested(f):
+            if not isinstance(call, ast.Call):
+                continue
+            fn = call.func
+            name = fn.id if isinstance(fn, ast.Name) else (fn.attr if isinstance(fn, ast.Attribute) else None)
+            if not name or not (name.endswith('Exception') or name.endswith('Error')):
+                continue
+            cands = prog.class_by_simple.get(name, [])
+            if len(cands) != 1:
+                continue
+            cls = cands[0]
+            init = None
+            for k in cls.mro():
+                if '__init__' in k.methods:
+                    init = k.methods['__init__']
+                    break
+            if init is None:
+                continue
+            if any(isinstance(a, ast.Starred) for a in call.args) or any(k.arg is None for k in call.keywords):
+                continue
+            ninst += 1
+            a = init.args
+            pos = [x.arg for x in a.posonlyargs + a.args][1:]
+            npos_default = len(a.defaults)
+            required_pos = pos[:len(pos) - npos_default] if npos_default else pos
+            required_kw = [x.arg for x, d in zip(a.kwonlyargs, a.kw_defaults) if d is None]
+            given_kw = {k.arg for k in call.keywords}
+            missing = [p for i, p in enumerate(required_pos) if i >= len(call.args) and p not in given_kw]
+            missing += [p for p in required_kw if p not in given_kw]
+            if missing:
+                out.append((m, (c.name + '.' if c else '') + f.name, call, name, missing))
+    return out, ninst
